@@ -38,7 +38,7 @@ FINDINGS = {}
 
 PRIOS = [None, -3, -2, -1, 0, 1, 2, 3]
 DEFAULTS = [None, None, 0, 1, -1, 2, 5]
-P_ADD, P_REMOVE = 1, 2
+P_ADD, P_REMOVE, P_RENAMED = 1, 2, 4
 
 
 class AddFailed(Exception):
@@ -55,12 +55,26 @@ class ProcRec(EqByMode, desper.Processor):
         if hook is not None:
             hook()
 
+    def _mapped(self, event, method):
+        # which method does this processor's class map the event to?  (on_add / on_remove exist on every class:
+        # calling them on a class that maps the event to another method is calling the wrong method)
+        return getattr(type(self), '__events__', {}).get(event, method) == method
+
     def on_add(self, *a):
-        self._log.append(('on_add', self, a))
+        self._log.append(('on_add' if self._mapped('on_add', 'on_add') else 'unmapped_method_on_add', self, a))
         if self.__dict__.pop('_fail_add', False):
             raise AddFailed(repr(self))     # user code failing in the processor's on_add
 
     def on_remove(self, *a):
+        self._log.append(('on_remove' if self._mapped('on_remove', 'on_remove') else 'unmapped_method_on_remove',
+                          self, a))
+
+    def added(self, *a):
+        self._log.append(('on_add', self, a))
+        if self.__dict__.pop('_fail_add', False):
+            raise AddFailed(repr(self))
+
+    def removed(self, *a):
         self._log.append(('on_remove', self, a))
 
     def __repr__(self):
@@ -69,8 +83,9 @@ class ProcRec(EqByMode, desper.Processor):
 
 def decode_class(p):
     # EV_EQ: processors with value semantics - equal-but-distinct instances of different classes
-    ev = (0, 0, P_ADD | P_REMOVE, P_ADD, P_REMOVE, EV_EQ, EV_EQ | P_ADD | P_REMOVE)[p % 7]
-    p //= 7
+    ev = (0, 0, P_ADD | P_REMOVE, P_ADD, P_REMOVE, EV_EQ, EV_EQ | P_ADD | P_REMOVE,
+          P_RENAMED | P_ADD | P_REMOVE, P_RENAMED | P_ADD)[p % 9]
+    p //= 9
     default = DEFAULTS[p % len(DEFAULTS)]
     p //= len(DEFAULTS)
     nb = (0, 1, 1, 2)[p % 4]
@@ -100,7 +115,7 @@ def decode_op(t):
 
 
 def strategy():
-    cls = st.integers(0, 7 * len(DEFAULTS) * 4 * 36 - 1).map(decode_class)
+    cls = st.integers(0, 9 * len(DEFAULTS) * 4 * 36 - 1).map(decode_class)
     op = st.tuples(st.integers(0, 10), st.integers(0, 16 ** 4 - 1)).map(decode_op)
     return st.fixed_dictionaries({'classes': st.lists(cls, min_size=3, max_size=6),
                                   'ops': worldops.chunked(op, 40),
@@ -126,7 +141,11 @@ def run_case(case):
     for spec, cls in zip(case['classes'], classes):
         ev = spec.get('ev', 0)
         names = [n for bit, n in ((P_ADD, 'on_add'), (P_REMOVE, 'on_remove')) if ev & bit]
-        if names:
+        if names and ev & P_RENAMED:
+            # event_handler(on_add='added', on_remove='removed'): the callbacks are not named like the events (the
+            # inherited on_add / on_remove of ProcRec must NOT be what runs)
+            desper.event_handler(**{nm: {'on_add': 'added', 'on_remove': 'removed'}[nm] for nm in names})(cls)
+        elif names:
             desper.event_handler(*names)(cls)
     n = len(classes)
     world = desper.World()
